@@ -19,7 +19,7 @@ ASSUMPTIONS = ["Havok binary tag file format v3 as read by the reference readers
 def plan(tier):
     if tier == "quick":
         return [("debug", 16, dict(n=25)), ("release", 4, dict(n=15)), ("asan", 2, dict(n=8))]
-    return [("debug", 16, dict(n=1200)), ("release", 8, dict(n=500)), ("asan", 4, dict(n=120))]
+    return [("debug", 16, dict(n=1200)), ("release", 8, dict(n=500)), ("asan", 4, dict(n=120)), ("memcheck", 2, dict(n=6))]
 
 
 NAME = "abcdefghijklmnopqrstuvwxyz_0123456789"
